@@ -20,6 +20,14 @@ CLAIMS = {
     },
 }
 
+CLAIMS["C20"] = {
+    "technique": "static analysis: who-may-write enumeration over object_t.uid/.euid in all units, guard dominance (edge atoms), master-approval gate reachability, who-may-call on get_empty_object",
+    "text": "Every store to uid/euid anywhere in the driver (plus bulk writes over an object_t) is enumerated and each must be an allow-listed site meeting its dominating "
+            "condition (seteuid only under MASTER_APPROVED(valid_seteuid) or to 0 on the caller; export_uid only from a non-zero euid onto a zero-euid target; creation-time uid only after the creator_file apply). "
+            "Object creation (get_empty_object/compile_file/load_binary) is shown unreachable without crossing the euid gate on every CFG path. Universal over sites and paths; the data-dependent backbone branch is not decided.",
+    "design_ref": "DESIGN.md §5 C20",
+}
+
 NOT_APPLICABLE = {
     "C18": "Line/trace correctness is a value-level question about run-length tables (encode in the code generator, decode in find_line); no clause of it is visible in the shape of the code, so static analysis gives no verdict (DESIGN.md §6).",
 }
